@@ -128,6 +128,11 @@ inline std::string &only_op()
   static std::string s;
   return s;
 }
+inline bool &thorough()
+{
+  static bool b = false;
+  return b;
+}
 inline bool wanted(char const *op) { return only_op().empty() || only_op() == op; }
 
 inline void reset(char const *op, std::string const &shape, std::string const &cats)
